@@ -70,6 +70,10 @@ def fixed_specs():
             yield {'start': start, 'ops': [{'o': 'fillmax', 'seed': 3}, {'o': 'read', 'triples': [[-1, None, 1]]}, {'o': 'trunc', 'i': -1, 'by': 'obj'},
                                             {'o': 'append', 'item': {'n': 2, 'seed': 4, 'form': 'nd'}}, {'o': 'fillmax', 'seed': 5}, {'o': 'reopen', 'm': 'r+'},
                                             {'o': 'append', 'item': {'n': 0, 'seed': 6, 'form': 'nd'}}]}
+            # more subarrays than the index type has values, nearly all of them without rows
+            yield {'start': start, 'ops': [{'o': 'iterappend-x', 'style': 'many-empties', 'n': 300, 'seed': 7}, {'o': 'read', 'triples': [[0, None, 7], [-3, None, 1]]},
+                                            {'o': 'append', 'item': {'n': 0, 'seed': 8, 'form': 'nd'}}, {'o': 'append', 'item': {'n': 2, 'seed': 9, 'form': 'nd'}},
+                                            {'o': 'reopen', 'm': 'r+'}, {'o': 'iterappend-x', 'style': 'many-empties', 'n': 130, 'seed': 10}, {'o': 'trunc', 'i': 200, 'by': 'obj'}]}
             for style in ('append', 'iter', 'iter-gen', 'iter-many', 'iter-ndarray'):
                 for over in (1, 130):
                     # an append that does not fit the index type, then the array is used on (truncated, appended to, filled exactly)
@@ -101,6 +105,11 @@ def task_fixed(ctx, col):
     envrun.run_specs(ctx, col, 'checks.c04', list(fixed_specs())[:2] + hyp_collect(rhist.st_ragged_history(max_ops=6), shard_seed(ctx, 79), ctx.pick(25, 400)), 'c-locale')
 
 
+def task_big(ctx, col, shard):
+    from vlib.runner import NSHARDS as _N
+    enum_search(ctx, col, (s for i, s in enumerate(rhist.big_item_specs()) if i % _N == shard), lambda s: execute(ctx, s))
+
+
 def enum_specs(L):
     for start in STARTS:
         for n in range(1, L + 1):
@@ -126,5 +135,6 @@ def tasks(ctx):
     t = [(task_fixed, {})]
     for sh in range(NSHARDS):
         t.append((task_enum, dict(shard=sh, L=L)))
+        t.append((task_big, dict(shard=sh)))
         t.append((task_random, dict(shard=sh, n=ctx.pick(80, 1300), max_ops=ctx.pick(8, 25))))
     return t
